@@ -12,7 +12,8 @@
      gets   : Get(k) for k = 0 .. nkeys-1, each [value; ok]
 
    The reported model run (c07_run) is the pointer-level one (C07_Dll.v);
-   c07_agree compares the implementation with it AND with Layer 1. *)
+   c07_agree compares the implementation with it AND (histories of at most
+   2000 calls) with Layer 1. *)
 
 From Gogu Require Import Base C07_Model C07_Dll.
 Local Open Scope Z_scope.
@@ -125,10 +126,23 @@ Definition c07_run_spec (w : list Z) : list Z :=
 
 (* Correspondence: the implementation's observation must be the one of BOTH
    executable transcriptions — the pointer-level heap model (c07_run, C07_Dll.v)
-   and Layer 1 (c07_run_l1, C07_Model.v) — on every case.  (They coincide by
-   C07_dll_refines_lru; running both ties each layer to the code separately.) *)
+   and Layer 1 (c07_run_l1, C07_Model.v).  (They coincide by
+   C07_dll_refines_lru; running both ties each layer to the code separately.)
+
+   The pointer-level model is compared on EVERY case.  Layer 1 is compared on
+   every case of at most 2000 calls (all exhaustive, random, malformed and
+   corpus cases, and every "large" history up to that length): Layer 1 names
+   nodes by unary numbers and finds a node by comparing names along the list,
+   so one call costs (entries x allocations so far) — 17-29 s for a single
+   4000-call history at capacity 1000, against < 2 s for the heap model.  On
+   the longer histories the implementation is tied to the heap model only (and
+   judged against the reference machine by c07_holds, as everywhere). *)
+Definition c07_l1_max_words : nat := (2 + 3 * 2000)%nat.   (* cap, nkeys, 2000 x [code; k; v] *)
+Definition c07_l1_compared (w : list Z) : bool := Nat.leb (length w) c07_l1_max_words.
 Definition c07_agree (w obs : list Z) : bool :=
-  zlist_eqb obs (c07_run w) && zlist_eqb obs (c07_run_l1 w).
+  if zlist_eqb obs (c07_run w)
+  then (if c07_l1_compared w then zlist_eqb obs (c07_run_l1 w) else true)
+  else false.
 
 (* The property is judged against the SPECIFICATION machine (a recency list
    with capacity), not against the transcription of the code: C07 determines
